@@ -38,6 +38,11 @@ CHECKS["C04"] = dict(level="model_checking", design="5 C04",
    note="A modification is observed through SELECT * probes (every field, period and key, memstore-inclusive and disk-only). The results of the generated queries themselves are not judged here (C06-C09).",
    technique="TLA+ trace validation (TLC) of gate-scheduled executions with generated queries + TLC-simulated behaviours")
 
+CHECKS["C17"] = dict(level="model_checking", design="5 C17",
+   text="Sets of 2-8 queries of one table (field subsets, reversed field lists, limits, ordered limits, relative time ranges, period multiples, memstore-inclusive and disk-only, one member with an already expired deadline) are run one after the other and then all at once through the coalescer of the real database (60 ms coalesce interval; the number of scan starts observed by the iter.start hook confirms the coalescing) on TLC-checked storage states with data split between memstore and disk; each member's coalesced result must equal its solo result, and the plain probes among them are bound to spec/Store.tla's view by trace validation (one scan start, one snapshot, every member's result equal to that snapshot restricted to what it asked for).",
+   note="Reference = solo execution of the same query on the same quiescent data. Unordered LIMIT: only the number of rows is compared. A member that fails alone (expired deadline) may fail in company; nobody else may.",
+   technique="TLA+ trace validation (TLC) of coalesced executions of the real code + differential comparison with solo runs")
+
 NOT_YET = {}
 
 
